@@ -59,7 +59,7 @@ Definition script := @Proxy_Model.script labels chunk str.
 
 Definition proxy (lazy : bool) (wrl : list str) (abort : bool) (limit : Z) (batch : nat) (ss : list script)
   : option (list frame) :=
-  proxy_series lbl_cmp ckey keqb cleb wlen limit_break lazy (match wrl with [] => false | _ => true end) abort
+  proxy_series lbl_cmp ckey keqb cleb wlen limit_break lazy (match wrl with [] => false | _ => true end) abort abort
                (rm_labels wrl) limit batch ss.
 
 (* ---- observables ---- *)
